@@ -1,8 +1,16 @@
 import Anysystem.Props.C16
 import Anysystem.Proofs.StagedThms
+import Anysystem.Proofs.SearchShared
 #print axioms Anysystem.C16_collected_exact
 #print axioms Anysystem.C16_status_counts_exact
 #print axioms Anysystem.runFromStates_restores
 #print axioms Anysystem.runImpl_is_search
 #print axioms Anysystem.search_trace_prefix
 #print axioms Anysystem.runFromStates_disabled_concat
+#print axioms Anysystem.searchMany_evald_reachable
+#print axioms Anysystem.searchMany_ok_union
+#print axioms Anysystem.searchMany_same_keys
+#print axioms Anysystem.searchMany_same_keys_disabled
+#print axioms Anysystem.searchMany_within_single_run
+#print axioms Anysystem.runFromStates_is_searchMany
+#print axioms Anysystem.runFromStates_ok_union
